@@ -1,5 +1,5 @@
 """C12 - SSE transport: live-or-raise setup, chunk-independent event stream, clean exit.
-(The exactly-once race between the POST reply and the event stream is NOT decided by this check - see level_note.)"""
+(3) exactly-once is decided per answer mode by SendRequest below (rely/guarantee over the pending table)."""
 from __future__ import annotations
 
 import z3
